@@ -219,7 +219,10 @@ def r3_loops(ctx, f, rep):
         subs = [(i, e) for i, e in enumerate(p.events) if e['kind'] == 'call' and e['decl'] == 'runtime::Runtime::submit_after']
         should = tok is True and conn is True and cfg is True
         cnt[v] += 1
-        good = (len(subs) == 1) == should and len(subs) <= 1
+        # re-armed iff all three hold; *not* re-arming must be justified by one of the three being false - a path that
+        # leaves the arm without the timer for any other reason (an empty backlog, say) loses the loop for good
+        should_not = tok is False or conn is False or cfg is False
+        good = (len(subs) == 1 and should) or (len(subs) == 0 and should_not)
         if subs:
             i, e = subs[0]
             t = e['args'][1]
